@@ -701,7 +701,13 @@ class World(object):
             return out
         if k == "complete":
             # ["complete", futname, kind, payload]
-            f = self.futs.get(op[1]) or self.src(op[1])
+            f = self.futs.get(op[1])
+            if f is None:
+                if ".base.j" in op[1]:
+                    # a manual job that was never handed to the base executor
+                    self.rec("complete_missing", fut=op[1])
+                    return "missing"
+                f = self.src(op[1])
             kind = op[2]
             try:
                 if kind == "value":
@@ -826,10 +832,22 @@ class CallbackRec(object):
             f.add_done_callback(CallbackRec(w, b[1], self.futname, None))
 
 
+def reset_library_globals():
+    """Module-level state of the library that would otherwise leak from one case into the next."""
+    import more_executors._impl.futures.timeout as ft
+    import more_executors._impl.event as ev
+
+    ft.EXECUTOR_REF = None
+    ev.GLOBAL_HANDLER.shutdown = False
+    ev.GLOBAL_HANDLER.atexit_registered = True  # same code path in every case, first or not
+    ev.GLOBAL_HANDLER.events = [r for r in ev.GLOBAL_HANDLER.events if r() is not None]
+
+
 def execute(prog, tape=(), block_tape=(), clock_mode="exact", max_steps=400000, max_vtime=1e4,
             line_points=True, track_lock_order=False, point_hook=None):
     """Run a program under a fresh scheduler; returns (scheduler, world)."""
     holder = {}
+    reset_library_globals()
 
     def t0():
         w = World(vsched.CURRENT)
